@@ -813,54 +813,116 @@ func (u *Unit) callByContract(st *State, fr *Frame, in *ssa.Call, fn *ssa.Functi
 			}
 		}
 	}
-	// `sameSlice(result.f, E)`: the result component is E's array at E's offset and length
+	// `sameSlice(T, E)` (possibly under a guard): the target *is* E's array at E's offset and length. A guarded
+	// alias forks the outcome: one where the guard holds and the target aliases E, one where the guard fails.
+	type variant struct {
+		st  *State
+		ret Value
+	}
+	variants := []variant{{st, ret}}
 	for _, cl := range ct.Ensures {
 		if !cl.visible(u.prop) {
 			continue
 		}
 		for _, ra := range cl.resultAliases() {
+			var next []variant
+			for _, v := range variants {
+				apply := func(vs *State, vret Value) (Value, bool) {
+					env := u.paramEnv(vs, fn, args, entry)
+					env.bindResults(cl, ct, vret)
+					sv, ok := env.eval(cl, ra.rhs).(SliceV)
+					if !ok {
+						return vret, false
+					}
+					cp := Fresh("alias.cap", SortInt)
+					vs.assume(And(IntLe(sv.Len, cp), IntLe(cp, sv.Cap)))
+					nv := SliceV{sv.R, sv.Off, sv.Len, cp}
+					if ra.res < 0 {
+						for i, pn := range ct.ParamNames {
+							if pn != ra.param {
+								continue
+							}
+							if pv, ok := args[i].(PtrV); ok && pv.Obj != nil {
+								if _, isSl := getPath(vs.objs[pv.Obj], pv.Path).(SliceV); isSl {
+									vs.objs[pv.Obj] = setPath(vs.objs[pv.Obj], pv.Path, nv)
+									return vret, true
+								}
+							}
+						}
+						return vret, false
+					}
+					if tv, isT := vret.(TupleV); isT {
+						nt := append(TupleV(nil), tv...)
+						nt[ra.res] = setPath(nt[ra.res], ra.path, nv)
+						return nt, true
+					}
+					return setPath(vret, ra.path, nv), true
+				}
+				if ra.guard == nil {
+					nr, _ := apply(v.st, v.ret)
+					next = append(next, variant{v.st, nr})
+					continue
+				}
+				genv := u.paramEnv(v.st, fn, args, entry)
+				genv.bindResults(cl, ct, v.ret)
+				g, ok := genv.eval(cl, ra.guard).(BoolV)
+				if !ok {
+					next = append(next, v)
+					continue
+				}
+				sa, sb := v.st.clone(), v.st
+				sa.assume(g.T)
+				if nr, ok := apply(sa, v.ret); ok {
+					next = append(next, variant{sa, nr})
+					sb.assume(Not(g.T))
+					next = append(next, variant{sb, v.ret})
+				} else {
+					next = append(next, v)
+				}
+			}
+			variants = next
+		}
+	}
+	var outs []Outcome
+	for _, v := range variants {
+		st, ret := v.st, v.ret
+		if ct.AllocBound != nil {
+			// ghost allocation counter: the callee's own bound
 			env := u.paramEnv(st, fn, args, entry)
-			sv, ok := env.eval(cl, ra.rhs).(SliceV)
-			if !ok {
+			b := env.eval(ct.AllocBound, ct.AllocBound.Expr).(IntV).T
+			d := Fresh("alloc."+fn.Name(), SortInt)
+			st.assume(And(IntLe(IntK(0), d), IntLe(d, b)))
+			st.alloc = IntAdd(st.alloc, d)
+		} else {
+			d := Fresh("alloc."+fn.Name(), SortInt)
+			st.assume(IntLe(IntK(0), d))
+			st.alloc = IntAdd(st.alloc, d)
+		}
+		for _, cl := range ct.Ensures {
+			if !cl.visible(u.prop) {
 				continue
 			}
-			cp := Fresh("alias.cap", SortInt)
-			st.assume(And(IntLe(sv.Len, cp), IntLe(cp, sv.Cap)))
-			nv := SliceV{sv.R, sv.Off, sv.Len, cp}
-			if tv, isT := ret.(TupleV); isT {
-				nt := append(TupleV(nil), tv...)
-				nt[ra.res] = setPath(nt[ra.res], ra.path, nv)
-				ret = nt
-			} else {
-				ret = setPath(ret, ra.path, nv)
-			}
+			u.usedCallee[key][cl.Label] = true
+			env := u.paramEnv(st, fn, args, entry)
+			env.bindResults(cl, ct, ret)
+			st.assume(env.formula(cl, false))
 		}
-	}
-	if ct.AllocBound != nil {
-		// ghost allocation counter: the callee's own bound
-		env := u.paramEnv(st, fn, args, entry)
-		b := env.eval(ct.AllocBound, ct.AllocBound.Expr).(IntV).T
-		d := Fresh("alloc."+fn.Name(), SortInt)
-		st.assume(And(IntLe(IntK(0), d), IntLe(d, b)))
-		st.alloc = IntAdd(st.alloc, d)
-	} else {
-		d := Fresh("alloc."+fn.Name(), SortInt)
-		st.assume(IntLe(IntK(0), d))
-		st.alloc = IntAdd(st.alloc, d)
-	}
-	for _, cl := range ct.Ensures {
-		if !cl.visible(u.prop) {
+		if !u.feasible(st) {
 			continue
 		}
-		u.usedCallee[key][cl.Label] = true
-		env := u.paramEnv(st, fn, args, entry)
-		env.bindResults(cl, ct, ret)
-		st.assume(env.formula(cl, false))
+		outs = append(outs, Outcome{st, ret})
 	}
-	if !u.feasible(st) {
+	if len(outs) == 0 {
+		// the callee's postconditions contradict the state: either the path was infeasible before the call or the
+		// contract (as modelled) is inconsistent; the latter would silently drop every obligation on this path, so it
+		// is checked at discharge time (cover:call — vacuous iff the pre-state is satisfiable and the post-state is not)
+		if u.specMode == 0 {
+			u.obls = append(u.obls, &Obligation{Name: fmt.Sprintf("%s#cover:call:%s@%s", fnKey(u.fn), key, site), Kind: "cover", Tags: []string{"support"},
+				Hyps: variants[0].st.hyps(), Pre: entry.hyps(), Goal: False, Cover: true, Func: fnKey(u.fn)})
+		}
 		return nil, true
 	}
-	return []Outcome{{st, ret}}, true
+	return outs, true
 }
 
 // markFresh marks regions reachable from a callee's havocked outputs: they are either fresh or alias the
